@@ -24,7 +24,7 @@ META = {
               "noise_voltage -> the real function evaluated with real NumPy on the concrete band (float island)", "np.random.uniform -> symbolic draws (shared between the two runs that are compared)"],
     "assumptions": ["REAL mode", "decay altitude and decay length are related as produced upstream (C07): (alt+R)^2 = R^2 + l^2 + 2 R l sin(beta); lenDec > 0; path length > 0; view angle in (0, pi/2)"],
 }
-LEDGER = {"quick": 690, "thorough": 450}
+LEDGER = {"quick": 730, "thorough": 450}
 
 
 def _load_antenna(band, h_obs):
@@ -491,6 +491,6 @@ def _band_sequence_probe():
 
 MANIFEST_ENTRY = {
     "level_text": "Partial claim. The real calculate_snr / voltage_from_field are executed symbolically on symbolic field arrays (N<=2 events x 5 or 27 bins, symbolic scale factor and antenna counts): nlsat proves SNR(kE) = k SNR(E), additivity in the field, SNR^2 proportional to the antenna count, exact zero for zero field, independence between events, and the 10-MHz bin grid of the voltage/noise arrays; the real EASRadio.__call__ (parametrisation and ionosphere tables uninterpreted) is executed for every in/out-of-range pattern: exactly zero rows outside [0,10] km, linearity in shower energy under a shared random sequence, ionosphere scaling only above 90 km, definedness of every division/arcsin/arccos given the upstream geometric relation; the bin centres of every row of the shipped parameter file are proved (z3, symbolic integers a<b) to coincide with arange(10a,10b,10)+5.",
-    "level_note": "The arguments handed to the (uninterpreted) parametrisation are claimed to be each event's own zenith, view angle and altitude (N=3: an out-of-range event in front of two in-range ones); replayed with a spy on the real RadioEFieldParams. That the real RadioEFieldParams selects its bins from its own band whatever was evaluated before is probed at every run (five bands in sequence against a freshly loaded module; sampling, not solving). REAL arithmetic. NOT covered: the ZHAireS parametrisation values and nearest-neighbour lookup (uninterpreted), the noise temperature model (evaluated concretely by real NumPy), ionosphere fit values.",
+    "level_note": "Independence between events of EASRadio.__call__ is additionally claimed syntactically (the field row of an event mentions no other event's inputs) and replayed with per-event energy factors on a batch with out-of-range events in front of and between in-range ones. The arguments handed to the (uninterpreted) parametrisation are claimed to be each event's own zenith, view angle and altitude (N=3: an out-of-range event in front of two in-range ones); replayed with a spy on the real RadioEFieldParams. That the real RadioEFieldParams selects its bins from its own band whatever was evaluated before is probed at every run (five bands in sequence against a freshly loaded module; sampling, not solving). REAL arithmetic. NOT covered: the ZHAireS parametrisation values and nearest-neighbour lookup (uninterpreted), the noise temperature model (evaluated concretely by real NumPy), ionosphere fit values.",
     "technique": "symbolic execution of the real NumPy source + z3 qfnra-nlsat; z3 LIA query over the shipped bin centres",
 }
